@@ -6,7 +6,9 @@ in main before use - ConstProp does not follow assignments).  Three programs per
 the generated mix (M), all-run-time (R), each in a generated context (argument of exit, right-hand side,
 call actual, return value, subscript, if/while condition).  Oracle: K, M and R show the same exit value
 and output (metamorphic), and that value equals the tree evaluated in Python with two's-complement
-wrap-around for + - and unary -, exact comparison for the relational operators.
+wrap-around for + - and unary -, and x < y as the sign of the wrapped difference x - y (the other relational
+operators through it, as xcmp rewrites them): exact whenever the difference is representable, and the run-time
+behaviour - which the property takes as the reference - when it is not.
 """
 import os
 
@@ -15,9 +17,8 @@ from ..xlang import wrap32
 
 RULE = ('expression trees (depth <= 5, all ten binary operators, unary - and ~, boolean-typed operands for and/or/~, associative chains) x leaf '
         'values from a boundary-heavy distribution (0, +/-1, +/-2, +/-65535..65537, INT_MAX, INT_MIN, pool values, uniform) x masks (each leaf '
-        'constant or run-time; one whole sub-tree forced constant) x 7 contexts; three programs per case. Relational operators whose operand '
-        'difference overflows 32 bits are excluded by construction while known finding KF-C07-01 is open (counted). Non-trivial = mixed mask, '
-        'or a fold that wraps around, or a constant outside +/-65535 (constant pool); distinct by hash of (tree, values, mask, context).')
+        'constant or run-time; one whole sub-tree forced constant) x 7 contexts; three programs per case. Non-trivial = mixed mask, '
+        'or a fold that wraps around, or a relational operator whose operand difference wraps around, or a constant outside +/-65535 (constant pool); distinct by hash of (tree, values, mask, context).')
 
 VALUES = [0, 1, -1, 2, -2, 3, 15, 16, 255, 256, 65535, 65536, 65537, -65535, -65536, -65537, 2**31 - 1, -2**31, 2**31 - 2, -2**31 + 1]
 CONTEXTS = ['exit', 'rhs', 'actual', 'return', 'subscript', 'if', 'while']
@@ -103,13 +104,16 @@ def evaluate(t, vals):
         return int(a != b), wr, oc
     d = a - b
     oc = oc or d != wrap32(d) or d == -2**31       # either difference (a-b or b-a) overflows
+    # x < y is the sign of the wrapped difference x - y (what the generated code computes; exact whenever the difference is
+    # representable); the other three are defined through it exactly as xcmp rewrites them
+    ls = lambda x, y: int(wrap32(x - y) < 0)
     if t.op == '<':
-        return int(a < b), wr, oc
+        return ls(a, b), wr, oc
     if t.op == '<=':
-        return int(a <= b), wr, oc
+        return 1 - ls(b, a), wr, oc
     if t.op == '>':
-        return int(a > b), wr, oc
-    return int(a >= b), wr, oc
+        return ls(b, a), wr, oc
+    return 1 - ls(a, b), wr, oc
 
 
 def has_cmp_overflow_somewhere(t, vals):
@@ -249,22 +253,13 @@ def gen_case(rng, stats, extra):
     typ = 'bool' if ctx in ('subscript', 'if', 'while') else ('int' if r.random() < 0.8 else 'bool')
     t = gen_tree(r, r.randint(1, 5), typ, leaves)
     pool = [r.randint(-40, 40) for _ in range(2)]
-    excluded = 0
-    for attempt in range(6):
-        vals = []
-        for k in leaves:
-            if k == 'bool':
-                vals.append(r.randint(0, 1))
-            else:
-                x = r.random()
-                vals.append(r.choice(VALUES) if x < 0.45 else r.choice(pool) if x < 0.65 else r.randint(-70000, 70000) if x < 0.85 else r.randint(-2**31, 2**31 - 1))
-        if not has_cmp_overflow_somewhere(t, vals):
-            break
-        excluded += 1
-    else:
-        vals = [r.randint(0, 1) if k == 'bool' else r.randint(-100, 100) for k in leaves]
-    if excluded:
-        stats.exclude('KF-C07-01', excluded)
+    vals = []
+    for k in leaves:
+        if k == 'bool':
+            vals.append(r.randint(0, 1))
+        else:
+            x = r.random()
+            vals.append(r.choice(VALUES) if x < 0.45 else r.choice(pool) if x < 0.65 else r.randint(-70000, 70000) if x < 0.85 else r.randint(-2**31, 2**31 - 1))
     n = len(leaves)
     mask = [r.random() < 0.5 for _ in range(n)]
     if n >= 3 and r.random() < 0.4:
@@ -286,12 +281,13 @@ def gen_case(rng, stats, extra):
     case = dict(tree=t, vals=vals, mask=mask, spell=spell, ctx=ctx)
     with driver.Scratch('c07') as scratch:
         verdict, why, srcs = check(case, scratch)
-    v, wrapped, _ = evaluate(t, vals)
+    v, wrapped, cmpovf = evaluate(t, vals)
     mixed = any(mask) and not all(mask)
     big = any(abs(x) >= 65536 for x in vals)
-    classes = ['ctx:' + ctx, 'verdict:' + verdict] + (['mixed-mask'] if mixed else []) + (['fold-wraps'] if wrapped else []) + (['pool-constant'] if big else [])
+    classes = (['ctx:' + ctx, 'verdict:' + verdict] + (['mixed-mask'] if mixed else []) + (['fold-wraps'] if wrapped else []) + (['pool-constant'] if big else []) +
+               (['comparison-difference-wraps'] if cmpovf else []))
     key = (tree_to_list(t), vals, mask, ctx)
-    stats.case(key=key, classes=classes, nontrivial=(mixed or wrapped or big),
+    stats.case(key=key, classes=classes, nontrivial=(mixed or wrapped or big or cmpovf),
                sample={'context': ctx, 'M_variant': srcs.get('M', '')[:600], 'expected_exit': expected_exit(v, ctx)})
     if verdict == 'fail':
         raise hyp.Failure(dict(kind='c07', tree=tree_to_list(t), vals=vals, mask=mask, spell=spell, ctx=ctx), why)
@@ -331,7 +327,8 @@ def report(ctx, case, why):
 def run(ctx):
     ctx.rule = RULE
     ctx.assumptions = ['run-time leaves are global variables assigned from literals in main (ConstProp does not follow assignments)',
-                       'relational operators are exact comparisons of signed 32-bit values; + - and unary - wrap around']
+                       '+ - and unary - wrap around; x < y is the sign of the wrapped difference x - y and <= > >= are defined through it as xcmp rewrites them '
+                       '(the run-time behaviour, which the property makes the reference; equal to the exact comparison whenever x - y is representable)']
     build.build_many(['xtool'])
     quick = ctx.tier == 'quick'
     for path in driver.regress_files('C07'):
